@@ -20,6 +20,23 @@ RULE = ("case = one configuration given by its defining data (centres, radii, tw
         "swept through the tolerance band (offsets 0, 1e-13 ... 0.1 on both sides); crossing circles with radius ratio up to 1e4 close "
         "to inner/outer tangency (offsets also scaled by d/s, the amplification of defect F9); a small out-of-domain stream (S = any). "
         "Concentric / nearly concentric circles (d = 0 exactly, radius differences 0 ... 10 EPS incl. one ulp either side; tiny d). "
+        "Nearly degenerate in-domain configurations (wave 3): lines almost or exactly parallel to a coordinate axis (slope 0 incl. a "
+        "coefficient -0.0, or 1e-11 ... 1e-2; |offset| up to 990; both B and N forms) met by a second line at a moderate angle in a point with "
+        "coordinates up to 900, in both argument orders, and the same lines against circles / points; lines whose defining points are a "
+        "round distance {1,2,4,10}*(1 + 0 ... 1e-6) apart or whose Line::new normal has length {1,.5,2,.125,10,100}*(1 +- 0 ... 1e-6), with "
+        "circle centres 20 ... 1000 from the line (tangent sweep through the band, secants, misses) and far points of the line. "
+        "Point algebra (`pt` cases): a+b, a-b in all four value/reference operand forms, a*k, a/k, slen, len, dp, cp on lattice / real / "
+        "+-0.0 / coincident / perpendicular operands: every value within 4e-15 (relative to the magnitudes of its terms) of the exact "
+        "value, decided in exact arithmetic on each side; From<Point> for (f64,f64), Debug and Show renderings read back, Clone / "
+        "clone_from (fresh and used destination) / Copy / Default, PartialEq eq/ne (field-wise, +0.0 == -0.0). "
+        "Iterators of the result enums (every cl / cc case in mode P, on the value returned, its clone, and the enum rebuilt from the "
+        "returned points): every consumption state (f items taken from the front, b from the back, three interleavings, one step "
+        "past the end) x every entry point: next, size_hint, len (if ExactSizeIterator), count, last, nth, fold, for_each, collect, "
+        "extend, find, position, any, all, reduce, min_by, max_by, skip, step_by, map+sum, chain, zip, enumerate, peekable, take, "
+        "by_ref, next_back, nth_back, rfold, rfind, rev (+ last / nth / size_hint of it) (if DoubleEndedIterator), clone mid-history "
+        "(if Clone), and the state left behind by every &mut-self entry point - each against its std definition applied to the "
+        "destructured payload (a slice). Clone / clone_from / Copy / Default / Debug of Circle, Line, PointPosition, CircleIntersection "
+        "and PointPosition's eq/ne are driven on every cl / cc / pos / ln case; every routine is called twice (copies of the inputs). "
         "Spec side: exact rational arithmetic on the bit patterns: kind required when the configuration is >= 1.01e-9 (the property's "
         "1e-9 tolerance + 1%) from a boundary between kinds or exactly tangent / exactly on the border, `any` inside the band; every "
         "returned point within 1e-7 of both primitives, decided EXACTLY on each side's own coordinates (harness: dyadic big-integer "
@@ -36,7 +53,14 @@ ASSUMPTIONS = [
     "util::EPS is extracted from util.rs on every run and handed to the model; the theorems hold for every eps > 0 (spec soundness: 0 < eps < 1.01e-9); the property's own "
     "tolerance (1e-9) and the extracted value must agree (side condition)",
     "domain of the property: coordinates up to 1e3 in absolute value, radii in [0.1, 1e3], points defining a line at least 1 apart "
-    "(Line::new: normal length in [1e-3, 1.4e3], line within 1.4e3 of the origin), circle centres identical or at least 0.1 apart",
+    "(Line::new: normal length in [1e-3, 1.4e3], line within 1.4e3 of the origin), circle centres identical or at least 0.1 apart; "
+    "`pt` cases: coordinates 0 or of magnitude 1e-6 ... 1e3, factor of magnitude 1e-3 ... 1e3 (no underflow)",
+    "the iterator / Clone / Default / Debug / From / Show / PartialEq observations (view tags iter-mismatch, clone-mismatch, debug-mismatch, "
+    "glue-mismatch) are judged by an independent oracle inside the harness: the std definition of each provided method applied to the "
+    "destructured payload of the enum (a plain slice) resp. field-wise comparison of bit patterns; the Lean model contributes the "
+    "point list (`CL.points` / `CC.points`) and its length only",
+    "the `pt` tolerance 4e-15 is the engine's reading of 'the operator is the component-wise IEEE operation' that survives a harmless "
+    "re-association (a handful of roundings); ptOk_iff proves what the executable predicate means, no rounding bound is proved",
 ]
 TRUSTED_EXTRA = ["IEEE-754 binary64 arithmetic of the CPU / libm sqrt (same in Lean's Float and Rust's f64)"]
 MANIFEST = {
@@ -51,10 +75,16 @@ MANIFEST = {
              "<=> sign of (|p-c|-r)/r against eps. The executable exact-rational specification the driver prints as `S` is proved sound "
              "against the real model (specKind*_sound, specPosition_sound, specContains_sound, nearCircle_iff, nearLine_iff). The same "
              "model, instantiated with Float, is compared with the crate on every check (kinds, point counts; exact point check on the crate's own points). "
-             "cc_points_on_both needs no distinct-centres hypothesis: concentric circles get Same/None (cc_concentric_no_point)."),
+             "cc_points_on_both needs no distinct-centres hypothesis: concentric circles get Same/None (cc_concentric_no_point). "
+             "Point algebra: point_ops_spec (the operators, slen, len, dp, cp over the reals are the textbook ones; dividing and multiplying "
+             "back is the identity; len is the non-negative root of slen) and ptOk_iff (the executable `pt` predicate = every observation "
+             "within 4e-15 relative of the real model's value)."),
     "note": ("PARTIAL: proved in exact real arithmetic only. The 1e-7 bound under IEEE rounding and the behaviour inside the EPS band are "
              "TESTED, not proved (differential run: lattice configurations decided exactly in integer arithmetic, real-valued "
-             "configurations decided exactly over the rationals from the f64 bit patterns, constructed tangencies swept through the band). "
+             "configurations decided exactly over the rationals from the f64 bit patterns, constructed tangencies swept through the band, "
+             "near-axis lines, round point spacings / nearly normalised normals with far centres). The IntoIterator impls of the result enums "
+             "and the std-trait glue of Point / Line / Circle / PointPosition (Clone, Default, Debug, From, Show, PartialEq, operator operand "
+             "forms) are TESTED against their std definitions by an oracle inside the harness, not modelled in Lean beyond the point list. "
              "Trusted: Lean kernel, axioms propext/Classical.choice/Quot.sound, the hand-written model (tied to the code on generated cases "
              "only), IEEE arithmetic, harness and driver plumbing."),
     "technique": "Lean 4 proof (Mathlib reals) of a hand-written arithmetic-polymorphic model + differential correspondence of its Float instance against the Rust crate with exact-arithmetic point oracles on both sides",
